@@ -14,12 +14,20 @@
                    larger:<int> | uid:<set> | seq:<set>     set = b_e+b_e…  (0 = `*`)
    impl    ok:n,n,… | ok:- | no | bad | badcharset | panic | lost
    A number of 2^32 or more is refused by the command parser (BAD); the judge expects exactly that.
+
+   dialect `judge-c15-dayident` (the day identities, on three answers of the real server on one view):
+
+     <mode> <snap> <data> <day> <on> <nb> <sb>
+
+   on / nb / sb = what the server answered (impl format) to `ON d`, `NOT BEFORE d BEFORE d+1`, `SINCE d BEFORE d+1`.
+   Theorems `C15.on_is_day_interval` / `C15.on_is_since_before_partial` are the same identities on the model.
 -/
 import GluonModel.Driver.Codec
 import GluonModel.Spec.SearchSpec
 
 -- DIALECT: c15-search DSearch.runSearch
 -- DIALECT: judge-c15-search DSearch.judgeSearch
+-- DIALECT: judge-c15-dayident DSearch.judgeDayIdent
 
 namespace Gluon.Driver.DSearch
 open Gluon Gluon.Search Gluon.Codec
@@ -257,5 +265,41 @@ def judgeSearch (args : List String) : String :=
           else if r.length > 0 && r.length < c.snap.length then "ok nontrivial" else "ok trivial"
         else if cl.all unjudged && !cl.isEmpty then s!"ok unjudged {cls}"
         else s!"violation spec-mismatch classes={cls} model={m} spec={showNums spec}"
+
+def parseNums (s : String) : Option (List Nat) :=
+  if s == "ok:-" then some []
+  else if s.startsWith "ok:" then some (((s.drop 3).toString.splitOn ",").map nat!)
+  else none
+
+/-- the numbers (sequence numbers or UIDs) of the messages of the view whose data satisfies `p` -/
+def numsWhere (uidMode : Bool) (s : Snap) (tab : List (Nat × MsgData)) (p : MsgData → Bool) : List Nat :=
+  (List.range s.length).filterMap fun i =>
+    match s[i]? with
+    | none => none
+    | some sm => if p ((tab.lookup sm.id).getD default) then some (if uidMode then sm.uid else i + 1) else none
+
+/-- **the day identities on what the server answered**: `ON d` and `NOT BEFORE d BEFORE d+1` name the same messages — those
+    whose internal date lies on day `d` (UTC, the day FETCH INTERNALDATE shows); `SINCE d BEFORE d+1` names them too, except
+    that SINCE reads the day in the zone the date was stored with (recorded deviation since-zone): the messages whose
+    stored zone names another day than UTC are left out of that comparison. -/
+def judgeDayIdent (args : List String) : String :=
+  match args with
+  | mode :: snap :: data :: day :: on :: nb :: sb :: _ =>
+    match parseSnap snap, parseNums on, parseNums nb, parseNums sb with
+    | some s, some ron, some rnb, some rsb =>
+      let tab := parseData data
+      let d := int! day
+      let uidMode := mode == "uid"
+      let onDay := numsWhere uidMode s tab fun m => m.date.utcDay == d
+      let zoned := numsWhere uidMode s tab fun m => m.date.localDay != m.date.utcDay
+      let free (l : List Nat) := l.filter fun n => !zoned.contains n
+      if ron != rnb then s!"violation day-identity on-vs-before day={d} on={showNums ron} not-before-and-before-next={showNums rnb} on-that-day={showNums onDay}"
+      else if free ron != free rsb then
+        s!"violation day-identity on-vs-since day={d} on={showNums ron} since-and-before-next={showNums rsb} on-that-day={showNums onDay}"
+      else if ron != onDay then s!"violation day-identity on-vs-internaldate day={d} on={showNums ron} on-that-day={showNums onDay}"
+      else if ron != rsb then "ok known since-zone"
+      else if ron.isEmpty || ron.length == s.length then "ok trivial" else "ok nontrivial"
+    | _, _, _, _ => "ok trivial not-answered"
+  | _ => "violation unparsable-case"
 
 end Gluon.Driver.DSearch
